@@ -173,7 +173,7 @@ theorem crun_eng (cfg : Cfg) : ∀ (h : List COp) (c : CSt),
 theorem step_prodDone (cfg : Cfg) (s : St) (op : Op) :
     (step cfg s op).prodDone = (s.prodDone || decide (op = .env .fin)) := by
   obtain ⟨clock, prodDone, finTime, suicide, armed, consume, retries, cancel, kc, hasProc, procKilled,
-    lastLaunched, aged, hasOutput, lastOutput, outs, execLog, pc, cause, pollsFin, books⟩ := s
+    lastLaunched, aged, hasOutput, lastOutput, outs, execLog, pc, cause, pollsFin, books, started⟩ := s
   rcases op with e | o
   · cases e <;> simp only [step, envStep, doKill] <;> (repeat' split) <;> simp
   · cases pc <;> simp only [step, engStep, post, doKill] <;> (repeat' split) <;> simp
